@@ -87,19 +87,20 @@ Definition pstate_of (p : packet) : pstate :=
 
 (* ------------------------------------------------------------------ THE COMMON FRAGMENT *)
 (* Rules all four implementations support, as a boolean predicate on (variant of the checker, IP version, store, rule).
-   The checker has no ICMP match, no working named-port match, and (pinned tree) ignores ip_version; it reads a
+   The checker has no ICMP match, (pinned tree) no working named-port match, and (pinned tree) ignores ip_version; it reads a
    negated CIDR list of the other address family as "not in it" where Felix's dataplanes take the rule to be of that
    family (PolicyRef.rule_version_ok); every set the rule names must be in the store (the checker skips unknown
    sets).  C11: at most one positive destination selector set, set ids typed.  C08/C09: at most two positive match
    blocks on a tree without fixes/C08-scratch-bit.patch (stated separately: rule_ok). *)
 Definition set_present (tbl : sets_table) (id : N) : bool := match assoc id tbl with Some _ => true | None => false end.
 Definition rule_sets (r : rule) : list N :=
-  r_src_ipsets r ++ r_dst_ipsets r ++ r_not_src_ipsets r ++ r_not_dst_ipsets r ++ r_dst_ipport_sets r.
+  r_src_ipsets r ++ r_dst_ipsets r ++ r_not_src_ipsets r ++ r_not_dst_ipsets r ++ r_dst_ipport_sets r
+  ++ r_src_named_ports r ++ r_dst_named_ports r ++ r_not_src_named_ports r ++ r_not_dst_named_ports r.
 
 Definition rule_in_fragment (kv : kvariant) (v : ipver) (tbl : sets_table) (r : rule) : bool :=
   match r_icmp r, r_not_icmp r with None, None => true | _, _ => false end
-  && is_nil (r_src_named_ports r) && is_nil (r_dst_named_ports r)
-  && is_nil (r_not_src_named_ports r) && is_nil (r_not_dst_named_ports r)
+  && (kv_named kv || (is_nil (r_src_named_ports r) && is_nil (r_dst_named_ports r)
+                      && is_nil (r_not_src_named_ports r) && is_nil (r_not_dst_named_ports r)))
   && (kv_ipver kv || match r_ipver r with None => true | Some _ => false end)
   && field_has_version (r_not_src_nets r) v && field_has_version (r_not_dst_nets r) v
   && forallb (set_present tbl) (rule_sets r).
